@@ -344,7 +344,8 @@ def worker_main(casefile, outfile):
 
     signal.signal(signal.SIGALRM, on_alarm)
 
-    real_rs, real_ds = gu.rejection_sample, gu.deheap_sort
+    # (a refactored graph_utils may no longer import a helper under this name: then that observation point is simply absent)
+    real_rs, real_ds = getattr(gu, "rejection_sample", None), getattr(gu, "deheap_sort", None)
 
     def rs_wrap(n_samples, pool_size, rng_state):
         # pass-through recorder; a call with n_samples > pool_size is announced first (it does not return)
@@ -445,7 +446,11 @@ def worker_main(casefile, outfile):
         obs.pop("cur_rounds", None)
         return r
 
-    gu.rejection_sample, gu.deheap_sort, gu.find_component_connection_edge = rs_wrap, ds_wrap, fe_wrap
+    if real_rs is not None:
+        gu.rejection_sample = rs_wrap
+    if real_ds is not None:
+        gu.deheap_sort = ds_wrap
+    gu.find_component_connection_edge = fe_wrap
 
     cases = json.load(open(casefile))
     emit({"ev": "hello", "n": len(cases)})
@@ -767,6 +772,17 @@ def api_collect(res, batches, all_cases, first_deadline, case_deadline, max_rest
             break
         if alive:
             time.sleep(0.3)
+    got = sum(len(b.records) + len(b.hard) for b in batches)
+    if all_cases and got * 2 < len(all_cases) and not any("overall budget" in n_ for n_ in res.notes):
+        tails = []
+        for b in batches:
+            try:
+                tails.append(open(os.path.join(b.tmp, b.name + ".err")).read()[-300:])
+            except OSError:
+                pass
+        # no verdict is not a pass: the watched children did not get through their cases (exit 2, infrastructure)
+        raise RuntimeError("C20 API level: only %d of %d cases produced a record (children died or restarts were exhausted); stderr tails: %r"
+                           % (got, len(all_cases), tails))
     byid = {c["id"]: c for c in all_cases}
     for b in batches:
         for cid, rec in sorted(b.records.items()):
